@@ -623,6 +623,11 @@ func (ee *engineEnv) check(tu *ketoapi.RelationTuple, depth int) string {
 	case o := <-done:
 		return o
 	case <-time.After(20 * time.Second):
+		// the cost of a check depends on the goroutine schedule (see costBudget): the probe was cheap, this evaluation was
+		// not.  Probe once more: still issuing storage operations = expensive; none any more = stuck
+		if ee.costlyN(tu, depth, costBudget) {
+			return "costly"
+		}
 		engineHung = true
 		return "hang"
 	}
